@@ -1216,10 +1216,120 @@ impl Trailer {
             trailer.mac = Some(block5[start + 5..start + end].to_string());
         }
 
-        // More complex parsing for structured tags can be added here
-        // For now, implementing basic tag extraction
+        // Structured tags: [time][reference], kept component by component
+        if let Some(value) = Self::tag_value(block5, "PDE") {
+            let (time, reference) = Self::split_time_and_reference(value, "PDE")?;
+            trailer.possible_duplicate_emission = Some(PossibleDuplicateEmission {
+                time,
+                message_input_reference: reference.map(|r| MessageInputReference {
+                    date: r.0,
+                    lt_identifier: r.1,
+                    branch_code: r.2,
+                    session_number: r.3,
+                    sequence_number: r.4,
+                }),
+            });
+        }
+
+        if let Some(value) = Self::tag_value(block5, "PDM") {
+            let (time, reference) = Self::split_time_and_reference(value, "PDM")?;
+            trailer.possible_duplicate_message = Some(PossibleDuplicateMessage {
+                time,
+                message_output_reference: reference.map(|r| MessageOutputReference {
+                    date: r.0,
+                    lt_identifier: r.1,
+                    branch_code: r.2,
+                    session_number: r.3,
+                    sequence_number: r.4,
+                }),
+            });
+        }
+
+        if let Some(value) = Self::tag_value(block5, "SYS") {
+            let (time, reference) = Self::split_time_and_reference(value, "SYS")?;
+            trailer.system_originated_message = Some(SystemOriginatedMessage {
+                time,
+                message_input_reference: reference.map(|r| MessageInputReference {
+                    date: r.0,
+                    lt_identifier: r.1,
+                    branch_code: r.2,
+                    session_number: r.3,
+                    sequence_number: r.4,
+                }),
+            });
+        }
+
+        if let Some(value) = Self::tag_value(block5, "MRF") {
+            // date (6) + time (4) + message input reference (28)
+            if value.len() != 38 || !value.is_ascii() {
+                return Err(ParseError::InvalidBlockStructure {
+                    block: "5".to_string(),
+                    message: format!("MRF must be 38 characters, found {}", value.len()),
+                });
+            }
+            let (_, reference) = Self::split_time_and_reference(&value[6..], "MRF")?;
+            let r = reference.expect("length checked above");
+            trailer.message_reference = Some(MessageReference {
+                date: value[0..6].to_string(),
+                full_time: value[6..10].to_string(),
+                message_input_reference: MessageInputReference {
+                    date: r.0,
+                    lt_identifier: r.1,
+                    branch_code: r.2,
+                    session_number: r.3,
+                    sequence_number: r.4,
+                },
+            });
+        }
 
         Ok(trailer)
+    }
+
+    /// Value of a `{TAG:value}` entry of block 5
+    fn tag_value<'a>(block5: &'a str, tag: &str) -> Option<&'a str> {
+        let marker = format!("{{{tag}:");
+        let start = block5.find(&marker)? + marker.len();
+        let len = block5[start..].find('}')?;
+        Some(&block5[start..start + len])
+    }
+
+    /// `[4!n time][28-character message reference]`: nothing, the time alone, or both
+    #[allow(clippy::type_complexity)]
+    fn split_time_and_reference(
+        value: &str,
+        tag: &str,
+    ) -> Result<(
+        Option<String>,
+        Option<(String, String, String, String, String)>,
+    )> {
+        if !value.is_ascii() || ![0, 4, 32].contains(&value.len()) {
+            return Err(ParseError::InvalidBlockStructure {
+                block: "5".to_string(),
+                message: format!(
+                    "{tag} must be empty, a time (4) or a time and a reference (32), found {} characters",
+                    value.len()
+                ),
+            });
+        }
+        if value.is_empty() {
+            return Ok((None, None));
+        }
+        let time = Some(value[0..4].to_string());
+        if value.len() == 4 {
+            return Ok((time, None));
+        }
+        // same component layout as tag 106 of block 3
+        let r = &value[4..];
+        Ok((
+            time,
+            Some((
+                r[0..6].to_string(),
+                r[6..18].to_string(),
+                r[18..21].to_string(),
+                r[21..25].to_string(),
+                r[25..].to_string(),
+            )),
+        ))
     }
 }
 
@@ -1239,15 +1349,58 @@ impl std::fmt::Display for Trailer {
             result.push_str("{DLM}");
         }
 
+        let input_reference = |r: &Option<MessageInputReference>| -> String {
+            r.as_ref()
+                .map(|r| {
+                    format!(
+                        "{}{}{}{}{}",
+                        r.date, r.lt_identifier, r.branch_code, r.session_number, r.sequence_number
+                    )
+                })
+                .unwrap_or_default()
+        };
+
         if let Some(ref possible_duplicate_emission) = self.possible_duplicate_emission {
             result.push_str(&format!(
-                "{{PDE:{}}}",
-                possible_duplicate_emission.time.as_deref().unwrap_or("")
+                "{{PDE:{}{}}}",
+                possible_duplicate_emission.time.as_deref().unwrap_or(""),
+                input_reference(&possible_duplicate_emission.message_input_reference)
             ));
         }
 
         if let Some(ref message_reference) = self.message_reference {
-            result.push_str(&format!("{{MRF:{}}}", message_reference.date));
+            result.push_str(&format!(
+                "{{MRF:{}{}{}}}",
+                message_reference.date,
+                message_reference.full_time,
+                input_reference(&Some(message_reference.message_input_reference.clone()))
+            ));
+        }
+
+        if let Some(ref possible_duplicate_message) = self.possible_duplicate_message {
+            let reference = possible_duplicate_message
+                .message_output_reference
+                .as_ref()
+                .map(|r| {
+                    format!(
+                        "{}{}{}{}{}",
+                        r.date, r.lt_identifier, r.branch_code, r.session_number, r.sequence_number
+                    )
+                })
+                .unwrap_or_default();
+            result.push_str(&format!(
+                "{{PDM:{}{}}}",
+                possible_duplicate_message.time.as_deref().unwrap_or(""),
+                reference
+            ));
+        }
+
+        if let Some(ref system_originated_message) = self.system_originated_message {
+            result.push_str(&format!(
+                "{{SYS:{}{}}}",
+                system_originated_message.time.as_deref().unwrap_or(""),
+                input_reference(&system_originated_message.message_input_reference)
+            ));
         }
 
         if let Some(ref mac) = self.mac {
